@@ -50,9 +50,10 @@ package resource
 //@ type Value
 //@   guarded_by mu: value, changeTime
 //@ // representation invariant of a Collection: a clock, a map, and every entry a non-nil item with a non-nil body
-//@ pure func wfColl(c) = c != nil && c.config != nil && !isnil(c.config.clock) && c.byId != nil &&
+//@ pure func wfColl(c) = c != nil && c.config != nil && !isnil(c.config.clock) && !isnil(c.config.rng) && c.byId != nil &&
 //@ |   (forall id string :: has(c.byId, id) ==> c.byId[id] != nil && !isnil(c.byId[id].body))
 //@ pure func sortedById(vs) = forall i int, j int :: 0 <= i && i < j && j < len(vs) ==> vs[i].id <= vs[j].id
+//@ pure func keyOf(c, id) = c.config.idInterceptor == nil ? id : c.config.idInterceptor(id)
 //@ pure func excluded(rc, id, m) = rc.Include != nil && !rc.Include(id, m)
 //@ type Collection
 //@   guarded_by mu: byId
@@ -76,11 +77,26 @@ package resource
 //@     |   res[j].changeTime == recv.byId[res[j].id].changeTime && !excluded(readConfig, res[j].id, res[j].body)
 //@     invariant forall i int, j int :: 0 <= i && i < j && j < len(res) ==> res[i].id != res[j].id
 //@     invariant forall id string :: has(recv.byId, id) && ridx(id) < k && !excluded(readConfig, id, recv.byId[id].body) ==> (exists j int :: 0 <= j && j < len(res) && res[j].id == id)
+//@ callback GenerateUniqueId.exists: pure
+//@ callback Reader.Read: modifies E$uint8
+//@ // C01: a generated id is non-empty and not in use (as far as the exists probe can tell)
+//@ func GenerateUniqueId(rng, probe) (id, err)
+//@   requires !isnil(rng) && probe != nil
+//@   ensures [nonempty@C01] err == nil ==> id != ""
+//@   ensures [unused@C01] err == nil ==> !probe(id)
+//@   ensures [failed@C01] err != nil ==> id == ""
+//@   modifies nothing
+//@   loop 0:
+//@     invariant 0 <= i && i <= 10
+//@     decreases 10 - i
 //@ func (*Collection).genID() (id, err)
 //@   option locks caller
-//@   option only guard lock call
 //@   replay CollectionGenIDRace()
-//@   requires recv != nil && held(recv.mu) && !held(recv.rngMu)
+//@   requires wfColl(recv) && held(recv.mu) && !held(recv.rngMu)
+//@   ensures [nonempty@C01] err == nil ==> id != ""
+//@   ensures [unused@C01] err == nil ==> !has(recv.byId, keyOf(recv, id))
+//@   ensures [failed@C01] err != nil ==> id == ""
+//@   modifies nothing
 //@
 //@ property C01 C04 C05 C06 C07
 //@ // ---- what callbacks supplied by callers may do (assumptions about code outside the module, listed in the evidence) ----
@@ -94,6 +110,9 @@ package resource
 //@ callback writeOptionFunc: closed
 //@ callback readOptionFunc: closed
 //@ callback optionFunc: closed
+//@ // WriteOption has an unexported method: every implementation is writeOptionFunc (closures of this package, each under
+//@ // its own contract below), EmptyWriteOption, or a type that embeds one of them; all they can write is the request
+//@ callback WriteOption.apply: modifies WriteRequest.*
 //@
 //@ property C01 C05
 //@ // ---- options: each one sets exactly its own field of the request (checked frame: nothing else is written), so any
@@ -216,6 +235,13 @@ package resource
 //@   loop 0 (k):
 //@     invariant 0 <= k && k <= len(opts) && rr != nil && fresh(rr)
 //@
+//@ pure func writeOptsOK(opts) = forall i int :: 0 <= i && i < len(opts) ==> !isnil(opts[i]) && (istype(opts[i], writeOptionFunc) ==> cast(opts[i], writeOptionFunc) != nil)
+//@ func ComputeWriteConfig(opts) (res)
+//@   requires writeOptsOK(opts)
+//@   modifies WriteRequest.*     // requests only live in the heap as the temporary this function fills; callers hold copies
+//@   loop 0 (k):
+//@     invariant 0 <= k && k <= len(opts) && req != nil && fresh(req)
+//@
 //@ // ---- Value as a register ----
 //@ pure func readOptsOK(opts) = forall i int :: 0 <= i && i < len(opts) ==> !isnil(opts[i]) && (istype(opts[i], readOptionFunc) ==> cast(opts[i], readOptionFunc) != nil)
 //@
@@ -293,7 +319,6 @@ package resource
 //@
 //@ // ---- Collection as an id -> message map: reads ----
 //@ property C01 C06 C07
-//@ pure func keyOf(c, id) = c.config.idInterceptor == nil ? id : c.config.idInterceptor(id)
 //@
 //@ func (*Collection).Get(id, opts) (msg, found)
 //@   requires wfColl(recv) && readOptsOK(opts)
@@ -323,6 +348,38 @@ package resource
 //@   loop 0 (k):
 //@     invariant 0 <= k && k <= len(tmp) && len(result) == k && fresh(result)
 //@     invariant forall j int :: 0 <= j && j < k ==> projected(result[j], tmp[j].body, filter)
+//@
+//@ // ---- Collection as an id -> message map: writes ----
+//@ property C01 C02 C05 C07
+//@ pure func sameEntries(c) = c.byId == old(c.byId) && (forall k string :: has(c.byId, k) == old(has(c.byId, k)) && c.byId[k] == old(c.byId[k]))
+//@
+//@ func (*Collection).Update(id0, msg, opts) (res, err)
+//@   requires wfColl(recv) && !isnil(msg) && writeOptsOK(opts)
+//@   requires forall k string :: has(recv.byId, k) ==> sametype(msg, recv.byId[k].body)     // a collection holds one message type
+//@   track Send
+//@   let key := id     // the id the write went to: the caller's, intercepted, or the generated one
+//@   let ev := cast(lastarg(Send, 2), *CollectionChange)
+//@   // a failing call changes nothing and emits nothing
+//@   ensures [fail-unchanged] err != nil ==> sameEntries(recv) && calls(Send) == old(calls(Send))
+//@   ensures [fail-result] err != nil ==> isnil(res)
+//@   // success: the entry under the (intercepted or generated) key now holds the returned message; every other entry is as before
+//@   ensures [stored] err == nil ==> has(recv.byId, key) && recv.byId[key] != nil && recv.byId[key].body == res && !isnil(res)
+//@   ensures [others-kept] err == nil ==> (forall k string :: k != key ==> has(recv.byId, k) == old(has(recv.byId, k)) && recv.byId[k] == old(recv.byId[k]))
+//@   ensures [fresh-store] err == nil ==> fresh(res) && ref(res) != ref(msg)
+//@   // exactly one event, describing the transition
+//@   ensures [one-event] err == nil ==> calls(Send) == old(calls(Send)) + 1
+//@   ensures [event] err == nil ==> istype(lastarg(Send, 2), *CollectionChange) && ev.Id == key &&
+//@   |   ev.NewValue == res && ev.ChangeTime == recv.byId[key].changeTime
+//@   ensures [event-kind] err == nil ==> (old(has(recv.byId, key)) ==> ev.ChangeType == types.ChangeType_UPDATE && ev.OldValue == old(recv.byId[key].body)) &&
+//@   |   (!old(has(recv.byId, key)) ==> ev.ChangeType == types.ChangeType_ADD && isnil(ev.OldValue))
+//@   // preconditions of the write
+//@   ensures [not-found] !old(has(recv.byId, key)) && !writeRequest.createIfAbsent ==> err != nil
+//@   ensures [already-exists] old(has(recv.byId, key)) && writeRequest.expectAbsent ==> err != nil
+//@   ensures [wf] wfColl(recv)
+//@   // a generated id is reported through the id callback and must find the entry again through Get/Update/Delete,
+//@   // which all apply the id interceptor to the id they are given
+//@   ensures [generated-usable] err == nil && keyOf(recv, id0) == "" && writeRequest.genEmptyID ==> key == keyOf(recv, lastcall(genID, 0))
+//@   replay [generated-usable] CollectionGeneratedIdUsable()
 //@
 //@ property C01 C04 C05 C06 C07
 //@ // ---- the goroutine that forwards a Value's events to one subscriber (C04, C06, C16 suppression step, C10 close) ----
